@@ -1,6 +1,7 @@
 package tsm1
 
 import (
+	"bytes"
 	"fmt"
 	"math"
 	"os"
@@ -493,16 +494,50 @@ func (c *Cache) MaxSize() uint64 {
 func (c *Cache) Count() int {
 	c.mu.RLock()
 	n := c.store.count()
+	if retained := c.retainedStore(); retained != nil {
+		n += retained.count()
+	}
 	c.mu.RUnlock()
 	return n
+}
+
+// retainedStore returns the store of a snapshot that could not be written and
+// is kept for a retry, or nil. Its values are still served to queries and
+// will reach a TSM file with the retry, so whoever looks for the keys the
+// cache holds (deletes) has to look there as well. While the snapshot is being
+// written the store belongs to the writer. The caller holds c.mu.
+func (c *Cache) retainedStore() storer {
+	if c.snapshotting || c.snapshot == nil || c.snapshot.store == nil || c.snapshot.Size() == 0 {
+		return nil
+	}
+	return c.snapshot.store
 }
 
 // Keys returns a sorted slice of all keys under management by the cache.
 func (c *Cache) Keys() [][]byte {
 	c.mu.RLock()
 	store := c.store
+	retained := c.retainedStore()
 	c.mu.RUnlock()
-	return store.keys(true)
+	keys := store.keys(true)
+	if retained == nil {
+		return keys
+	}
+	// merge the two sorted lists, dropping duplicates
+	other := retained.keys(true)
+	merged := make([][]byte, 0, len(keys)+len(other))
+	for len(keys) > 0 && len(other) > 0 {
+		switch cmp := bytes.Compare(keys[0], other[0]); {
+		case cmp < 0:
+			merged, keys = append(merged, keys[0]), keys[1:]
+		case cmp > 0:
+			merged, other = append(merged, other[0]), other[1:]
+		default:
+			merged, keys, other = append(merged, keys[0]), keys[1:], other[1:]
+		}
+	}
+	merged = append(merged, keys...)
+	return append(merged, other...)
 }
 
 func (c *Cache) Split(n int) []*Cache {
@@ -624,30 +659,58 @@ func (c *Cache) DeleteRange(keys [][]byte, min, max int64) {
 	c.mu.Lock()
 	defer c.mu.Unlock()
 
+	deleteRangeFromStore(c.store, keys, min, max, c.decreaseSize)
+
+	// A snapshot whose write failed stays in c.snapshot until a retry
+	// succeeds. It is still read by queries and will be written to a TSM file
+	// by that retry, so the delete has to reach it too. While a snapshot is
+	// being written it must not be touched.
+	if retained := c.retainedStore(); retained != nil {
+		deleteRangeFromStore(retained, keys, min, max, func(delta uint64) {
+			if cur := atomic.LoadUint64(&c.snapshot.size); delta > cur {
+				delta = cur
+			}
+			if cur := atomic.LoadUint64(&c.snapshotSize); delta > cur {
+				delta = cur
+			}
+			if delta == 0 {
+				return
+			}
+			atomic.AddUint64(&c.snapshot.size, ^(delta - 1))
+			atomic.AddUint64(&c.snapshotSize, ^(delta - 1))
+		})
+	}
+	atomic.StoreInt64(&c.stats.MemSizeBytes, int64(c.Size()))
+}
+
+// deleteRangeFromStore removes the values of keys within [min, max] from store
+// and reports the bytes freed through decrease.
+func deleteRangeFromStore(store storer, keys [][]byte, min, max int64, decrease func(delta uint64)) {
 	for _, k := range keys {
 		// Make sure key exist in the cache, skip if it does not
-		e := c.store.entry(k)
+		e := store.entry(k)
 		if e == nil {
 			continue
 		}
 
 		origSize := uint64(e.size())
 		if min == math.MinInt64 && max == math.MaxInt64 {
-			c.decreaseSize(origSize + uint64(len(k)))
-			c.store.remove(k)
+			decrease(origSize + uint64(len(k)))
+			store.remove(k)
 			continue
 		}
 
 		e.filter(min, max)
 		if e.count() == 0 {
-			c.store.remove(k)
-			c.decreaseSize(origSize + uint64(len(k)))
+			store.remove(k)
+			decrease(origSize + uint64(len(k)))
 			continue
 		}
 
-		c.decreaseSize(origSize - uint64(e.size()))
+		if d := origSize - uint64(e.size()); d > 0 {
+			decrease(d)
+		}
 	}
-	atomic.StoreInt64(&c.stats.MemSizeBytes, int64(c.Size()))
 }
 
 // SetMaxSize updates the memory limit of the cache.
@@ -677,8 +740,13 @@ func (c *Cache) values(key []byte) Values {
 func (c *Cache) ApplyEntryFn(f func(key []byte, entry *entry) error) error {
 	c.mu.RLock()
 	store := c.store
+	retained := c.retainedStore()
 	c.mu.RUnlock()
-	return store.applySerial(f)
+	if err := store.applySerial(f); err != nil || retained == nil {
+		return err
+	}
+	// Entries of a snapshot kept for a retry; a key may be in both stores.
+	return retained.applySerial(f)
 }
 
 // CacheLoader processes a set of WAL segment files, and loads a cache with the data
